@@ -23,6 +23,8 @@ import PycsepVerif.Drive.Src
 import PycsepVerif.Drive.C18b
 import PycsepVerif.Drive.Text
 import PycsepVerif.Drive.SrcSM
+import PycsepVerif.Drive.C15b
+import PycsepVerif.Drive.C18c
 -- REGISTER-IMPORT (one `import PycsepVerif.Drive.Cxx` line per property, above this line)
 
 /-- the per-property handlers, tried in order; each returns `none` for ops it does not know -/
@@ -52,6 +54,8 @@ def handlers : List (List String → Option String) := [
   , Drive.C18b.handle
   , Drive.Text.handle
   , Drive.SrcSM.handle
+  , Drive.C15b.handle
+  , Drive.C18c.handle
   -- REGISTER-HANDLER (`, Drive.Cxx.handle` lines above this line)
 ]
 
